@@ -31,7 +31,7 @@ const (
 	c19Debounce  = 20 * time.Millisecond
 	c19Retry     = 15 * time.Millisecond
 	c19Stall     = 100 * c19Debounce // bounded progress: this long without any new event = stuck
-	c19Cap       = 40 * time.Second  // absolute cap of one wait (a livelock ends here)
+	c19Cap       = 10 * time.Second  // cap of one wait in observed-healthy time (a livelock ends here)
 	c19CanaryBad = 250 * time.Millisecond
 	c19Par       = 8 // debouncer scenarios run in parallel inside one case
 	c19NPatterns = 127
@@ -647,6 +647,7 @@ type c19Scn struct {
 	fresh   int
 	probes  []c19Probe
 	stalled string // "" | submit | apply
+	frozen  []c19Ev
 	closed  atomic.Bool
 
 	mu       sync.Mutex
@@ -795,7 +796,7 @@ func (s *c19Scn) async(fns ...func()) bool {
 	}
 	done := make(chan struct{})
 	go func() { wg.Wait(); close(done) }()
-	lastN, lastChange, start := -1, time.Now(), time.Now()
+	w := c19NewWatch()
 	tk := time.NewTicker(2 * time.Millisecond)
 	defer tk.Stop()
 	for {
@@ -804,14 +805,11 @@ func (s *c19Scn) async(fns ...func()) bool {
 			return true
 		case <-tk.C:
 		}
-		if n := s.lg.snap().NEv; n != lastN {
-			lastN, lastChange = n, time.Now()
-		}
-		if time.Since(lastChange) > c19Stall || time.Since(start) > c19Cap {
+		if w.stuck(s.lg.snap().NEv) {
 			break
 		}
 	}
-	s.stalled = "submit"
+	s.stall("submit")
 	// free the blocked senders so that nothing leaks, then give up on this scenario
 	rel := time.After(2 * time.Second)
 	for {
@@ -825,18 +823,57 @@ func (s *c19Scn) async(fns ...func()) bool {
 	}
 }
 
+// c19Watch implements "no new event for c19Stall" so that a frozen or starved test process can never
+// produce the verdict: only time that this goroutine itself observed in small steps is counted. A poll
+// that comes back later than c19Healthy is not counted and halves the window (we were not running, so
+// the debouncer may not have been either).
+type c19Watch struct {
+	lastPoll time.Time
+	lastN    int
+	quiet    time.Duration
+	total    time.Duration
+}
+
+const c19Healthy = 40 * time.Millisecond
+
+func c19NewWatch() *c19Watch { return &c19Watch{lastPoll: time.Now(), lastN: -1} }
+
+func (w *c19Watch) stuck(nEv int) bool {
+	now := time.Now()
+	dt := now.Sub(w.lastPoll)
+	w.lastPoll = now
+	if dt > c19Healthy {
+		w.quiet /= 2
+		return false
+	}
+	w.total += dt
+	if nEv != w.lastN {
+		w.lastN = nEv
+		w.quiet = 0
+		return false
+	}
+	w.quiet += dt
+	return w.quiet > c19Stall || w.total > c19Cap
+}
+
+// stall freezes the evidence: whatever happens after the verdict "stuck" (the harness frees blocked
+// senders by receiving from the channel itself) must not be judged.
+func (s *c19Scn) stall(what string) {
+	if s.stalled == "" {
+		s.stalled = what
+		s.frozen = s.lg.events()
+	}
+}
+
 func (s *c19Scn) waitUntil(cond func(c19Snap) bool) bool {
-	lastN, lastChange, start := -1, time.Now(), time.Now()
+	w := c19NewWatch()
 	for {
 		sn := s.lg.snap()
 		if cond(sn) {
 			return true
 		}
-		if sn.NEv != lastN {
-			lastN, lastChange = sn.NEv, time.Now()
-		}
-		if time.Since(lastChange) > c19Stall || time.Since(start) > c19Cap {
-			s.stalled = "apply"
+		if w.stuck(sn.NEv) {
+			s.stall("apply")
 			return false
 		}
 		time.Sleep(500 * time.Microsecond)
@@ -997,6 +1034,9 @@ func c19RunScenario(c *vfCase, sp *c19Spec, can *vfCanary) {
 
 func c19Judge(c *vfCase, s *c19Scn, can *vfCanary) {
 	evs := s.lg.events()
+	if s.stalled != "" {
+		evs = s.frozen
+	}
 	fs, st := c19Check(evs, s.probes)
 	s.mu.Lock()
 	fs = append(fs, s.findings...)
@@ -1068,7 +1108,7 @@ func c19Recheck(c *vfCase) {
 			Probes []c19Probe `json:"probes"`
 		} `json:"detail"`
 	}
-	if json.Unmarshal(b, &rp) != nil || len(rp.Detail.Events) == 0 {
+	if json.Unmarshal(b, &rp) != nil || len(rp.Detail.Events) == 0 || rp.Detail.Spec.Variant == "frrk8s" {
 		return
 	}
 	fs, _ := c19Check(rp.Detail.Events, rp.Detail.Probes)
@@ -1094,7 +1134,7 @@ func TestVerif_C19(t *testing.T) {
 	defer can.Stop()
 	shard, nshards := vfEnvInt("VERIF_SHARD", 0), vfEnvInt("VERIF_NSHARDS", 1)
 
-	vfMain(t, "C19", vfSizes{Quick: 5, Thorough: 75},
+	vfMain(t, "C19", vfSizes{Quick: 8, Thorough: 75},
 		"scenario (failure pattern x submission script) in which a reload failed, a burst was coalesced, or a submission arrived while the reload action was running",
 		func(c *vfCase) {
 			if c.Replaying {
